@@ -27,7 +27,7 @@ RULE = ("Hypothesis draws a corpus string s (with the locale a loose autodetect 
 ASSUMPTIONS = ["frozen clock, default settings (one settings hash per DEFAULT_LANGUAGES list)",
                "for a language whose lang-REGION code is not listed, the plain language is what 'selecting the region' can mean (the reported locale is lang-REGION exactly when that code is listed)",
                "experiment D resets LocaleDataLoader's class-level caches before the call so that an earlier clean load cannot mask a misbuilt locale"]
-ESSENTIAL = ["regional-own-name", "tz-word-string", "exp:A", "exp:B", "exp:C", "exp:D", "exp:E", "entry:region", "entry:numeric-anchor", "given-order", "default-languages", "region:partly-invalid", "differs-between-languages"]
+ESSENTIAL = ["regional-own-name", "tz-word-string", "exp:A", "exp:B", "exp:C", "exp:D", "exp:E", "locales-list", "entry:region", "entry:numeric-anchor", "given-order", "default-languages", "region:partly-invalid", "differs-between-languages"]
 
 NOW = dt.datetime(2015, 6, 15, 10, 30)
 _corpus = []
@@ -94,19 +94,26 @@ def _check(case, exp, s, cls):
             cls.append("tz-word-string")
         if defaults:
             cls.append("default-languages")
-        singles = {L: _res(_parser(languages=[L]).get_date_data(s)) for L in langs}
+        as_locales = bool(case.get("as_locales"))
+        if as_locales:
+            # the same relation for a list of locale codes (one per language; a bare language code is a locale code too): the
+            # loader orders them by their languages' priority, or keeps the given order
+            cls.append("locales-list")
+            singles = {L: _res(_parser(locales=[L]).get_date_data(s)) for L in langs}
+        else:
+            singles = {L: _res(_parser(languages=[L]).get_date_data(s)) for L in langs}
         if case.get("num"):
             # absolute anchor (not only consistency between calls of this process): a language whose own order is the order the
             # digits were written in must read them as written
             num = case["num"]
             want_abs = dt.datetime(*num["ymd"], *num["hm"])
             for L in langs:
-                if data.info(L).get("date_order", "MDY") == num["order"] and singles[L][0] != want_abs:
+                if not as_locales and data.info(L).get("date_order", "MDY") == num["order"] and singles[L][0] != want_abs:
                     return fail("single-language-reading", "languages=[%r] (order %s) reads %r as %r, expected %r"
                                 % (L, num["order"], s, singles[L][0], want_abs), (s, tuple(langs), "num"))
-        seq = langs if given else sorted(langs, key=order.index)
+        seq = langs if given else sorted(langs, key=lambda L: order.index(lang_of(L)))
         want = next((singles[L] for L in seq if singles[L][0] is not None), None)
-        kw = {"languages": langs}
+        kw = {"locales": langs} if as_locales else {"languages": langs}
         if given:
             kw["use_given_order"] = True
         multi = _res(_parser(**kw).get_date_data(s))
@@ -362,6 +369,10 @@ def cases(draw):
         c.update(langs=langs, given_order=draw(st.booleans()),
                  defaults=draw(st.one_of(st.none(), st.lists(st.sampled_from(["en", "fr", "es", "de", "ru", "zh", detected]),
                                                              min_size=1, max_size=2, unique=True))))
+        if draw(st.integers(0, 3)) == 0:
+            lld = data.language_locale_dict()
+            c["langs"] = [draw(st.sampled_from([L] + lld[L])) if lld.get(L) else L for L in langs]
+            c["as_locales"] = True
     elif exp == "C":
         lld = data.language_locale_dict()
         cands = [L for L in ([detected] if lld.get(detected) else []) + ["en", "fr", "es", "ar", "pt", "de", "sr-Cyrl", "zh-Hant"] if lld.get(L)]
